@@ -508,7 +508,7 @@ def strace_available():
     global _strace_ok
     if _strace_ok is None:
         try:
-            p = subprocess.run(["strace", "-f", "-qq", "-e", "trace=openat", "-o", "/dev/null", "true"],
+            p = subprocess.run(["strace", "-f", "--seccomp-bpf", "-qq", "-e", "trace=openat", "-o", "/dev/null", "true"],
                                capture_output=True, timeout=20)
             _strace_ok = p.returncode == 0
         except Exception:
@@ -526,7 +526,8 @@ def run(cmd, cwd, env=None, timeout=600, strace_root=None, cpu_limit=None, stdin
     if strace_root is not None:
         fd, trace_file = tempfile.mkstemp(prefix="st.", dir=(ctx.root if ctx else None))
         os.close(fd)
-        full = ["strace", "-f", "-y", "-qq", "-s", "4096", "-e", "trace=" + STRACE_SYSCALLS, "-o", trace_file] + full
+        # --seccomp-bpf: only the traced syscalls stop the tracee (several times cheaper, same events)
+        full = ["strace", "-f", "--seccomp-bpf", "-y", "-qq", "-s", "4096", "-e", "trace=" + STRACE_SYSCALLS, "-o", trace_file] + full
 
     def pre():
         os.setsid()
